@@ -474,7 +474,10 @@ class Executor:
             self.contract.after_requires(self, st)
             self.entry.ghost = dict(st.ghost)
         self.entry_assumed = st.copy()
-        self._exec_block(self.fx.node.body, st, self._finish_normal)
+        try:
+            self._exec_block(self.fx.node.body, st, self._finish_normal)
+        except PathEnd:
+            pass
         return self.obligations
 
     def _finish_normal(self, st):
@@ -555,6 +558,7 @@ class Executor:
             return k(st)
         if isinstance(n, ast.AugAssign):
             cur = ev.eval(_load(n.target))
+            ev._aug_target = n.target
             v = ev.binop(n.op, cur, ev.eval(n.value), n)
             self._assign(st, n.target, v, n, aug=True)
             return k(st)
@@ -587,11 +591,17 @@ class Executor:
         st_t, st_f = st, st.copy()
         if self.feasible(st_t, c):
             st_t.pc.append(c)
-            kt(st_t)
+            try:
+                kt(st_t)
+            except PathEnd:
+                pass
         nc = z3.Not(c)
         if self.feasible(st_f, nc):
             st_f.pc.append(nc)
-            kf(st_f)
+            try:
+                kf(st_f)
+            except PathEnd:
+                pass
 
     # -- assignment ------------------------------------------------------------------------
     def _assign(self, st, t, v, node, aug=False):
@@ -780,7 +790,10 @@ class Executor:
                     self.oblige(s, z3.And(Z(d1) < Z(dec0), Z(dec0) >= 0) if not it else True, f"{lab}.decreases", "term", n.lineno)
                 self.paths += 1
 
-            self._loop_body(n.body, bst, after_body)
+            try:
+                self._loop_body(n.body, bst, after_body)
+            except PathEnd:
+                pass
         # exit branch
         xst = hst
         ntest = z3.Not(test)
@@ -998,7 +1011,7 @@ class Evaluator:
             b = Zb(v)
             return simp(z3.Not(b))
         if isinstance(n.op, ast.USub):
-            if concrete(v) and isinstance(v, (int, Fraction)):
+            if concrete(v) and isinstance(v, (int, Fraction, complex)):
                 return -v
             return -Z(to_num(v))
         if isinstance(n.op, ast.UAdd):
